@@ -5,6 +5,7 @@ import (
 	"os"
 	"path/filepath"
 	"runtime"
+	"sort"
 	"strings"
 
 	"github.com/DDP-Projekt/Kompilierer/cmd/internal/gcc"
@@ -77,7 +78,14 @@ func LinkDDPFiles(options Options) ([]byte, error) {
 	if options.DeleteIntermediateFiles {
 		defer options.Log("Lösche temporäre Dateien")
 	}
-	for path := range options.Dependencies.Dependencies {
+	// walk the dependencies in a fixed (sorted) order, not in map order
+	dependencies := make([]string, 0, len(options.Dependencies.Dependencies))
+	for dependency := range options.Dependencies.Dependencies {
+		dependencies = append(dependencies, dependency)
+	}
+	sort.Strings(dependencies)
+	link_dirs := []string{} // keys of link_objects in order of first use
+	for _, path := range dependencies {
 		filename := filepath.Base(path)
 		// stdlib and runtime are linked by default
 		// ignore them because of the Duden
@@ -92,6 +100,7 @@ func LinkDDPFiles(options Options) ([]byte, error) {
 				link_objects[filepath.Dir(path)] = append(objs, filename)
 			} else {
 				link_objects[filepath.Dir(path)] = []string{filename}
+				link_dirs = append(link_dirs, filepath.Dir(path))
 			}
 		case ".o": // object files are simple input files
 			input_files = append(input_files, path)
@@ -112,7 +121,7 @@ func LinkDDPFiles(options Options) ([]byte, error) {
 	args := append(make([]string, 0), "-o", options.OutputFile, "-O2", "-L"+ddppath.Lib)
 
 	// add all librarie-search-paths
-	for k := range link_objects {
+	for _, k := range link_dirs {
 		args = append(args, "-L"+k)
 	}
 
@@ -120,8 +129,8 @@ func LinkDDPFiles(options Options) ([]byte, error) {
 	args = append(args, input_files...)
 
 	// add external dependencies
-	for _, libs := range link_objects {
-		for _, lib := range libs {
+	for _, dir := range link_dirs {
+		for _, lib := range link_objects[dir] {
 			args = append(args, "-l:"+lib)
 		}
 	}
